@@ -284,7 +284,7 @@ func (fr *Frame) enterLoop(li *loopInfo, ins []*State, predIdx []int) (*State, e
 	if r.dry == 0 {
 		names := fr.phiNames(li, entryPhi, zero)
 		for _, cl := range invs {
-			g, err := fr.evalBool(cl.E, entrySt, names)
+			g, err := fr.evalBoolEnv(cl.E, &evalEnv{fr: fr, st: entrySt, old: fr.entry, names: names, loopEntry: entrySt, loopEntryNames: fr.phiNames(li, entryPhi, zero)})
 			if err != nil {
 				return nil, fmt.Errorf("loop %d invariant %s: %v", li.ordinal, cl.Label, err)
 			}
@@ -371,11 +371,13 @@ func (fr *Frame) enterLoop(li *loopInfo, ins []*State, predIdx []int) (*State, e
 	}
 	names := fr.phiNames(li, fresh, iter)
 	for _, cl := range invs {
-		g, err := fr.evalBool(cl.E, hst, names)
+		lenv := &evalEnv{fr: fr, st: hst, old: fr.entry, names: names, loopEntry: entrySt, loopEntryNames: fr.phiNames(li, entryPhi, zero)}
+		g, err := fr.evalBoolEnv(cl.E, lenv)
 		if err != nil {
 			return nil, fmt.Errorf("loop %d invariant %s: %v", li.ordinal, cl.Label, err)
 		}
 		r.assume(hst, g)
+		fr.rebindFromExpr(cl.E, hst, lenv)
 	}
 	if dec != nil {
 		v, err := fr.evalExpr(dec.E, &evalEnv{fr: fr, st: hst, old: fr.entry, names: names})
@@ -441,7 +443,7 @@ func (fr *Frame) backEdge(li *loopInfo, from *ssa.BasicBlock, st *State) error {
 		save := fr.cur
 		fr.cur = from
 		for _, cl := range as {
-			env := &evalEnv{fr: fr, st: st, old: fr.entry, names: names, preNames: fr.phiNames(li, hdr, lr.iter)}
+			env := &evalEnv{fr: fr, st: st, old: fr.entry, names: names, preNames: fr.phiNames(li, hdr, lr.iter), loopEntry: lr.entry, loopEntryNames: fr.phiNames(li, lr.entryPhi, intV(bvLit(0, 64)))}
 			g, err := fr.evalBoolEnv(cl.E, env)
 			if err != nil {
 				return fmt.Errorf("loop %d assert %s: %v", li.ordinal, cl.Label, err)
@@ -452,7 +454,7 @@ func (fr *Frame) backEdge(li *loopInfo, from *ssa.BasicBlock, st *State) error {
 		fr.cur = save
 	}
 	for _, cl := range invs {
-		g, err := fr.evalBool(cl.E, st, names)
+		g, err := fr.evalBoolEnv(cl.E, &evalEnv{fr: fr, st: st, old: fr.entry, names: names, loopEntry: lr.entry, loopEntryNames: fr.phiNames(li, lr.entryPhi, intV(bvLit(0, 64)))})
 		if err != nil {
 			return fmt.Errorf("loop %d invariant %s: %v", li.ordinal, cl.Label, err)
 		}
@@ -816,6 +818,64 @@ func (fr *Frame) ghostAt(key string, st *State) error {
 	return nil
 }
 
+// rebindFromExpr: for every top-level conjunct of an assumed formula that has the form
+// p.f == <integer literal>, store the literal at the location, so that later code sees a
+// constant (used to constant-fold the bit writer's alignment state).
+func (fr *Frame) rebindFromExpr(e Expr, st *State, env *evalEnv) {
+	switch x := e.(type) {
+	case *EBin:
+		switch x.Op {
+		case "&&":
+			fr.rebindFromExpr(x.X, st, env)
+			fr.rebindFromExpr(x.Y, st, env)
+		case "==":
+			sel, ok := x.X.(*ESel)
+			lit, ok2 := x.Y.(*EInt)
+			if !ok || !ok2 {
+				return
+			}
+			base, err := fr.evalExpr(sel.X, env)
+			if err != nil {
+				return
+			}
+			// type the literal after the field
+			cur, err := fr.selectField(base, sel.Name, env)
+			if err != nil {
+				return
+			}
+			cs, ok := cur.(*Sc)
+			if !ok || cs.K != kBV {
+				return
+			}
+			v := lit.V
+			if lit.Neg {
+				v = uint64(-int64(lit.V))
+			}
+			fr.rebind(st, base, sel.Name, bv(bvLit(v, cs.W), cs.W, cs.Signed))
+		}
+	case *ECall:
+		m, ok := fr.run.eng.specs.Macros[x.Fn]
+		if !ok || len(x.Args) != len(m.Params) {
+			return
+		}
+		nn := map[string]Value{}
+		for k, v := range env.names {
+			nn[k] = v
+		}
+		for i, p := range m.Params {
+			v, err := fr.evalExpr(x.Args[i], env)
+			if err != nil {
+				return
+			}
+			nn[p] = v
+		}
+		sub := *env
+		sub.names = nn
+		sub.letCache = nil
+		fr.rebindFromExpr(m.Body, st, &sub)
+	}
+}
+
 // rebind stores v into field name of *base when both are simple scalars.
 func (fr *Frame) rebind(st *State, base Value, name string, v Value) {
 	r := fr.run
@@ -847,7 +907,7 @@ func (fr *Frame) rebind(st *State, base Value, name string, v Value) {
 		nm := fieldComp(pt.Elem(), f)
 		srt := sArr(sRef, ls[0].sort)
 		h := r.heap.get(st, nm, srt)
-		r.heap.set(st, nm, srt, sto(h, p.T, r.ctx.define("cut", ls[0].sort, s.T)), p.T)
+		r.heap.setQuiet(st, nm, srt, sto(h, p.T, r.ctx.define("cut", ls[0].sort, s.T)))
 	}
 }
 
